@@ -109,7 +109,7 @@ fn c05_inputs(base: &[u8], thorough: bool) -> Vec<(String, Vec<u8>)> {
         let hdr = (u16::from_le_bytes([b[14], b[15]]) & !0x07ff) | len;
         b[14..16].copy_from_slice(&hdr.to_le_bytes());
         v.push((format!("framelen{}", len), b.clone()));
-        if len % 64 == 0 || len > 2040 {
+        if len <= 130 || len % 64 == 0 || len > 2040 {
             b.resize(16 + len as usize, 0);
             v.push((format!("framelen{}+padded", len), b));
         }
@@ -210,9 +210,11 @@ pub fn c05(tier: &Tier) -> Result<i32, String> {
                             for (iname, bytes) in inputs {
                                 let mut m = build(n, k, hist);
                                 let before = m.snapshot();
+                                let raw_before = m.raw_memory();
                                 let sent_before = m.sent_slots();
                                 let res = m.receive(&bytes);
                                 let after = m.snapshot();
+                                let raw_after = m.raw_memory();
                                 evals += 1;
                                 if busy {
                                     nontrivial += 1;
@@ -232,7 +234,20 @@ pub fn c05(tier: &Tier) -> Result<i32, String> {
                                         *results.entry(key).or_insert(0) += 1;
                                         let changed: Vec<usize> = (0..n).filter(|i| before.slots[*i] != after.slots[*i]).collect();
                                         let processed = matches!(r, Ok(ReceiveAction::Processed));
-                                        if bytes.len() >= 14 && (!is_ecat || own) && !matches!(r, Ok(ReceiveAction::Ignored)) {
+                                        // raw memory (headers, padding, wakers included) of every slot but the accepted one
+                                        let raw_changed: Vec<usize> = (0..n).filter(|i| raw_before[*i] != raw_after[*i]).collect();
+                                        let declared = if bytes.len() >= 16 { (u16::from_le_bytes([bytes[14], bytes[15]]) & 0x07ff) as usize } else { 0 };
+                                        if processed && declared > 64 - 16 {
+                                            bad = Some(("oversize-frame-accepted".into(), format!(
+                                                "a frame declaring {} bytes of datagrams was accepted into a slot that holds {}: the copy writes outside the slot",
+                                                declared, 64 - 16)));
+                                        } else if raw_changed.iter().any(|i| !changed.contains(i)) {
+                                            bad = Some(("memory-outside-slot-buffers-changed".into(), format!(
+                                                "frame element memory of slots {:?} changed although only slots {:?} changed visibly ({:?})",
+                                                raw_changed, changed, r)));
+                                        }
+                                        if bad.is_some() {
+                                        } else if bytes.len() >= 14 && (!is_ecat || own) && !matches!(r, Ok(ReceiveAction::Ignored)) {
                                             bad = Some(("not-ignored".into(), format!("non-EtherCAT or own-source frame was not ignored: {:?}", r)));
                                         } else if processed {
                                             let ok = changed.len() == 1
